@@ -1,4 +1,710 @@
-use crate::*;
-pub struct GenCfg;
-pub fn gen_class(_c: &mut dyn Choice, _cfg: &GenCfg) -> Sem { unimplemented!() }
-pub fn gen_layout(_c: &mut dyn Choice) -> Layout { unimplemented!() }
+//! Generators: well-formed (by [`crate::validate`]) semantic classes, layouts,
+//! and targeted big-jump methods for class-writer tests.
+
+#[path = "gen_code.rs"]
+mod code;
+#[path = "gen_big.rs"]
+mod big;
+
+pub use big::{gen_big_jump_method, BigJump, BigJumpKind};
+
+use crate::enc::{CpOrder, FrameEnc, Layout};
+use crate::jstr::JStr;
+use crate::sem::*;
+use crate::Choice;
+
+/// Feature bits for [`GenCfg::features`].
+pub mod feat {
+    pub const CODE: u32 = 1 << 0;
+    pub const FRAMES: u32 = 1 << 1;
+    pub const ANNOTATIONS: u32 = 1 << 2;
+    pub const TYPE_ANNOTATIONS: u32 = 1 << 3;
+    pub const MODULE: u32 = 1 << 4;
+    pub const RECORD: u32 = 1 << 5;
+    pub const NEST: u32 = 1 << 6;
+    pub const PERMITTED: u32 = 1 << 7;
+    pub const INNER: u32 = 1 << 8;
+    pub const INDY: u32 = 1 << 9;
+    pub const CONDY: u32 = 1 << 10;
+    pub const UNKNOWN_ATTRS: u32 = 1 << 11;
+    pub const UNICODE: u32 = 1 << 12;
+    pub const DEBUG_TABLES: u32 = 1 << 13;
+    pub const JSR: u32 = 1 << 14;
+    pub const SIGNATURES: u32 = 1 << 15;
+    pub const SWITCHES: u32 = 1 << 16;
+    pub const WIDE_LOCALS: u32 = 1 << 17;
+    pub const EXCEPTION_TABLE: u32 = 1 << 18;
+    pub const MISC_ATTRS: u32 = 1 << 19;
+    pub const ALL: u32 = (1 << 20) - 1;
+}
+
+/// Size and feature knobs of [`gen_class`].
+#[derive(Debug, Clone)]
+pub struct GenCfg {
+    /// Maximum number of fields and of methods (each).
+    pub max_members: usize,
+    /// Maximum number of instructions per method.
+    pub max_insns: usize,
+    /// Bitmask of [`feat`] bits.
+    pub features: u32,
+    /// Inclusive major-version range (clamped to 45..=67).
+    pub major_min: u16,
+    pub major_max: u16,
+}
+
+impl Default for GenCfg {
+    fn default() -> GenCfg {
+        GenCfg { max_members: 4, max_insns: 40, features: feat::ALL, major_min: 45, major_max: 67 }
+    }
+}
+
+impl GenCfg {
+    pub fn small() -> GenCfg {
+        GenCfg { max_members: 2, max_insns: 12, ..GenCfg::default() }
+    }
+    pub fn large() -> GenCfg {
+        GenCfg { max_members: 8, max_insns: 400, ..GenCfg::default() }
+    }
+}
+
+pub(crate) struct G<'c> {
+    pub c: &'c mut dyn Choice,
+    pub cfg: &'c GenCfg,
+    pub major: u16,
+    pub this_class: JStr,
+}
+
+const ASCII_START: &[u8] = b"abcdefghijklmnopqrstuvwxyzABCDEFGHIJKLMNOPQRSTUVWXYZ_$";
+const ASCII_PART: &[u8] = b"abcdefghijklmnopqrstuvwxyzABCDEFGHIJKLMNOPQRSTUVWXYZ_$0123456789";
+const ODD_UNITS: &[u32] = &[0x0000, 0x007F, 0x0080, 0x00E9, 0x07FF, 0x0800, 0x20AC, 0xFFFF, 0x1_0000, 0x1_F600, 0x10_FFFF];
+
+impl<'c> G<'c> {
+    pub fn has(&self, f: u32) -> bool {
+        self.cfg.features & f != 0
+    }
+    pub fn below(&mut self, n: usize) -> usize {
+        self.c.below(n.max(1) as u64) as usize
+    }
+    pub fn chance(&mut self, pct: u32) -> bool {
+        self.c.chance(pct)
+    }
+    pub fn range(&mut self, lo: i64, hi: i64) -> i64 {
+        self.c.range(lo, hi)
+    }
+    pub fn bits(&mut self) -> u64 {
+        let hi = self.c.below(1 << 32);
+        let lo = self.c.below(1 << 32);
+        (hi << 32) | lo
+    }
+
+    /// An unqualified name (legal for fields, methods, locals, classes).
+    pub fn ident(&mut self) -> JStr {
+        let len = if self.chance(15) { 1 } else { 1 + self.below(8) };
+        let mut cps: Vec<u32> = Vec::new();
+        for i in 0..len {
+            if self.has(feat::UNICODE) && self.chance(6) {
+                let u = ODD_UNITS[self.below(ODD_UNITS.len())];
+                cps.push(u);
+            } else {
+                let set = if i == 0 { ASCII_START } else { ASCII_PART };
+                cps.push(set[self.below(set.len())] as u32);
+            }
+        }
+        JStr::from_code_points(cps).unwrap()
+    }
+
+    pub fn class_name(&mut self) -> JStr {
+        if self.chance(20) {
+            const WELL_KNOWN: &[&str] = &["java/lang/Object", "java/lang/String", "java/util/List", "java/lang/Runnable", "java/lang/Throwable"];
+            return JStr::from_str(WELL_KNOWN[self.below(WELL_KNOWN.len())]);
+        }
+        let segs = 1 + self.below(3);
+        let mut b = Vec::new();
+        for i in 0..segs {
+            if i > 0 {
+                b.push(b'/');
+            }
+            b.extend_from_slice(self.ident().as_bytes());
+        }
+        JStr(b)
+    }
+
+    pub fn package_name(&mut self) -> JStr {
+        self.class_name()
+    }
+
+    pub fn module_name(&mut self) -> JStr {
+        let segs = 1 + self.below(3);
+        let mut s = String::new();
+        for i in 0..segs {
+            if i > 0 {
+                s.push('.');
+            }
+            let len = 1 + self.below(6);
+            for j in 0..len {
+                let set = if j == 0 { &ASCII_START[..52] } else { &ASCII_PART[..52] };
+                s.push(set[self.below(set.len())] as char);
+            }
+        }
+        if self.chance(5) {
+            s.push_str("\\@x");
+        }
+        JStr::from_str(&s)
+    }
+
+    pub fn field_desc(&mut self) -> JStr {
+        let mut b = Vec::new();
+        if self.chance(25) {
+            let dims = 1 + self.below(3);
+            b.extend(std::iter::repeat(b'[').take(dims));
+        }
+        if self.chance(40) {
+            b.push(b'L');
+            b.extend_from_slice(self.class_name().as_bytes());
+            b.push(b';');
+        } else {
+            b.push(b"BCDFIJSZ"[self.below(8)]);
+        }
+        JStr(b)
+    }
+
+    pub fn method_desc(&mut self) -> JStr {
+        let mut b = vec![b'('];
+        let n = self.below(5);
+        for _ in 0..n {
+            b.extend_from_slice(self.field_desc().as_bytes());
+        }
+        b.push(b')');
+        if self.chance(30) {
+            b.push(b'V');
+        } else {
+            b.extend_from_slice(self.field_desc().as_bytes());
+        }
+        JStr(b)
+    }
+
+    /// A class-entry name: mostly a class name, sometimes an array descriptor.
+    pub fn class_or_array(&mut self) -> JStr {
+        if self.chance(15) {
+            let mut d = self.field_desc();
+            if d.as_bytes()[0] != b'[' {
+                d.0.insert(0, b'[');
+            }
+            d
+        } else {
+            self.class_name()
+        }
+    }
+
+    /// Arbitrary string content (for String constants, SourceFile, ...).
+    pub fn text(&mut self) -> JStr {
+        let len = self.below(12);
+        let mut units: Vec<u16> = Vec::new();
+        for _ in 0..len {
+            if self.has(feat::UNICODE) && self.chance(15) {
+                match self.below(4) {
+                    0 => units.push(0),
+                    1 => units.push(0xD800 + self.below(0x800) as u16), // possibly unpaired surrogate
+                    2 => {
+                        units.push(0xD83D);
+                        units.push(0xDE00 + self.below(64) as u16);
+                    }
+                    _ => units.push(self.below(0x10000) as u16),
+                }
+            } else {
+                units.push(0x20 + self.below(0x5F) as u16);
+            }
+        }
+        JStr::from_utf16(&units)
+    }
+
+    pub fn opt<T>(&mut self, pct: u32, f: impl FnOnce(&mut Self) -> T) -> Option<T> {
+        if self.chance(pct) {
+            Some(f(self))
+        } else {
+            None
+        }
+    }
+
+    pub fn list<T>(&mut self, max: usize, mut f: impl FnMut(&mut Self) -> T) -> Vec<T> {
+        let n = self.below(max + 1);
+        (0..n).map(|_| f(self)).collect()
+    }
+
+    fn field_signature(&mut self) -> JStr {
+        match self.below(3) {
+            0 => JStr::from_str("TT;"),
+            1 => JStr::from_str("Ljava/util/List<Ljava/lang/String;>;"),
+            _ => JStr::from_str("Ljava/util/Map<TK;[Ljava/util/List<+Ljava/lang/Number;>;>.Entry<**>;"),
+        }
+    }
+
+    pub fn unknown_attrs(&mut self) -> Vec<UnknownAttr> {
+        if !self.has(feat::UNKNOWN_ATTRS) || !self.chance(20) {
+            return Vec::new();
+        }
+        self.list(2, |g| {
+            let mut name = b"x.".to_vec();
+            name.extend_from_slice(g.ident().as_bytes());
+            let len = if g.chance(30) { 0 } else { g.below(24) };
+            let bytes = (0..len).map(|_| g.below(256) as u8).collect();
+            UnknownAttr { name: JStr(name), bytes }
+        })
+    }
+
+    // ---- annotations -----------------------------------------------------
+
+    pub fn element_value(&mut self, depth: usize) -> ElementValue {
+        let k = if depth >= 3 { self.below(11) } else { self.below(13) };
+        match k {
+            0 => ElementValue::Byte(self.range(-128, 127) as i32),
+            1 => ElementValue::Char(self.range(0, 65535) as i32),
+            2 => ElementValue::Double(self.bits()),
+            3 => ElementValue::Float(self.bits() as u32),
+            4 => ElementValue::Int(self.bits() as i32),
+            5 => ElementValue::Long(self.bits() as i64),
+            6 => ElementValue::Short(self.range(-32768, 32767) as i32),
+            7 => ElementValue::Boolean(self.below(2) as i32),
+            8 => ElementValue::String(self.text()),
+            9 => {
+                let mut d = vec![b'L'];
+                d.extend_from_slice(self.class_name().as_bytes());
+                d.push(b';');
+                ElementValue::Enum { type_desc: JStr(d), const_name: self.ident() }
+            }
+            10 => ElementValue::Class(if self.chance(20) { JStr::from_str("V") } else { self.field_desc() }),
+            11 => ElementValue::Annotation(Box::new(self.annotation(depth + 1))),
+            _ => ElementValue::Array(self.list(3, |g| g.element_value(depth + 1))),
+        }
+    }
+
+    pub fn annotation(&mut self, depth: usize) -> Annotation {
+        let mut d = vec![b'L'];
+        d.extend_from_slice(self.class_name().as_bytes());
+        d.push(b';');
+        let pairs = self.list(3, |g| Pair { name: g.ident(), value: g.element_value(depth + 1) });
+        Annotation { type_desc: JStr(d), pairs }
+    }
+
+    pub fn annotations(&mut self) -> Annotations {
+        if !self.has(feat::ANNOTATIONS) || self.major < 49 || !self.chance(30) {
+            return Annotations::default();
+        }
+        Annotations { visible: self.list(2, |g| g.annotation(0)), invisible: self.list(2, |g| g.annotation(0)) }
+    }
+
+    pub fn type_path(&mut self) -> Vec<PathStep> {
+        self.list(3, |g| {
+            let kind = g.below(4) as u8;
+            PathStep { kind, arg: if kind == 3 { g.below(4) as u8 } else { 0 } }
+        })
+    }
+
+    pub fn type_annotations(&mut self, mut target: impl FnMut(&mut Self) -> Target) -> TypeAnnotations {
+        if !self.has(feat::TYPE_ANNOTATIONS) || self.major < 52 || !self.chance(25) {
+            return TypeAnnotations::default();
+        }
+        let mut mk = |g: &mut Self| {
+            g.list(2, |g| TypeAnnotation { target: target(g), path: g.type_path(), annotation: g.annotation(0) })
+        };
+        let visible = mk(self);
+        let invisible = mk(self);
+        TypeAnnotations { visible, invisible }
+    }
+
+    // ---- constants -------------------------------------------------------
+
+    pub fn member(&mut self, method: bool, is_interface: bool) -> MemberRef {
+        MemberRef {
+            owner: self.class_or_array(),
+            name: self.ident(),
+            desc: if method { self.method_desc() } else { self.field_desc() },
+            is_interface,
+        }
+    }
+
+    pub fn handle(&mut self) -> Handle {
+        let kind = 1 + self.below(9) as u8;
+        let member = match kind {
+            1..=4 => self.member(false, false),
+            5 => self.member(true, false),
+            6 | 7 => {
+                let itf = self.major >= 52 && self.chance(30);
+                self.member(true, itf)
+            }
+            8 => {
+                let mut m = self.member(true, false);
+                m.name = JStr::from_str("<init>");
+                m
+            }
+            _ => self.member(true, true),
+        };
+        Handle { kind, member }
+    }
+
+    pub fn dynamic(&mut self, indy: bool, depth: usize) -> Dynamic {
+        let bsm = self.handle();
+        let args = self.list(3, |g| g.loadable(depth + 1, true));
+        let desc = if indy {
+            self.method_desc()
+        } else if self.chance(25) {
+            JStr::from_str(if self.chance(50) { "J" } else { "D" })
+        } else {
+            self.field_desc()
+        };
+        Dynamic { bsm, args, name: self.ident(), desc }
+    }
+
+    /// A loadable constant legal for the class version. `allow_wide`: Long,
+    /// Double and wide Dynamic are allowed (bootstrap args, ldc2_w).
+    pub fn loadable(&mut self, depth: usize, allow_wide: bool) -> Const {
+        loop {
+            let c = match self.below(9) {
+                0 => Const::Int(self.bits() as i32),
+                1 => Const::Float(self.bits() as u32),
+                2 => Const::Long(self.bits() as i64),
+                3 => Const::Double(self.bits()),
+                4 => Const::String(self.text()),
+                5 if self.major >= 49 => Const::Class(self.class_or_array()),
+                6 if self.major >= 51 => Const::MethodType(self.method_desc()),
+                7 if self.major >= 51 => Const::MethodHandle(self.handle()),
+                8 if self.major >= 55 && self.has(feat::CONDY) && depth < 2 => Const::Dynamic(Box::new(self.dynamic(false, depth))),
+                _ => continue,
+            };
+            if c.is_wide() && !allow_wide {
+                continue;
+            }
+            return c;
+        }
+    }
+
+    // ---- members ---------------------------------------------------------
+
+    fn field(&mut self, in_interface: bool) -> Field {
+        let mut access = if in_interface { 0x0019 } else { [0u16, 1, 2, 4][self.below(4)] };
+        if !in_interface {
+            if self.chance(40) {
+                access |= 0x0008;
+            }
+            if self.chance(40) {
+                access |= 0x0010;
+            } else if self.chance(15) {
+                access |= 0x0040;
+            }
+            if self.chance(10) {
+                access |= 0x0080;
+            }
+            if self.chance(5) {
+                access |= 0x4000;
+            }
+        }
+        if self.chance(8) {
+            access |= 0x1000;
+        }
+        let desc = self.field_desc();
+        let constant_value = if access & 0x0008 != 0 && self.chance(50) {
+            match desc.as_bytes() {
+                b"I" => Some(ConstValue::Int(self.bits() as i32)),
+                b"S" => Some(ConstValue::Int(self.range(-32768, 32767) as i32)),
+                b"C" => Some(ConstValue::Int(self.range(0, 65535) as i32)),
+                b"B" => Some(ConstValue::Int(self.range(-128, 127) as i32)),
+                b"Z" => Some(ConstValue::Int(self.below(2) as i32)),
+                b"F" => Some(ConstValue::Float(self.bits() as u32)),
+                b"J" => Some(ConstValue::Long(self.bits() as i64)),
+                b"D" => Some(ConstValue::Double(self.bits())),
+                b"Ljava/lang/String;" => Some(ConstValue::String(self.text())),
+                _ => None,
+            }
+        } else {
+            None
+        };
+        let sig = self.has(feat::SIGNATURES) && self.major >= 49 && self.chance(20);
+        Field {
+            access,
+            name: self.ident(),
+            desc,
+            constant_value,
+            signature: if sig { Some(self.field_signature()) } else { None },
+            synthetic: self.chance(5),
+            deprecated: self.chance(5),
+            annotations: self.annotations(),
+            type_annotations: self.type_annotations(|_| Target::Empty(0x13)),
+            unknown: self.unknown_attrs(),
+        }
+    }
+
+    fn method(&mut self, in_interface: bool) -> Method {
+        let mut access = if in_interface { 1 } else { [0u16, 1, 2, 4][self.below(4)] };
+        let is_static = self.chance(35);
+        if is_static {
+            access |= 0x0008;
+        }
+        let kind = self.below(10); // 0 abstract, 1 native, else with code
+        let has_code = self.has(feat::CODE) && kind >= 2;
+        if !has_code {
+            if kind == 1 && !in_interface {
+                access |= 0x0100;
+            } else {
+                access = (access & !0x0008) | 0x0400;
+            }
+        } else {
+            if self.chance(15) {
+                access |= 0x0010;
+            }
+            if self.chance(10) {
+                access |= 0x0020;
+            }
+            if self.chance(5) && self.major < 61 {
+                access |= 0x0800;
+            }
+        }
+        if self.chance(8) {
+            access |= 0x0040 | 0x1000;
+        }
+        if self.chance(8) {
+            access |= 0x0080;
+        }
+        if self.chance(5) {
+            access |= 0x1000;
+        }
+        let name = match self.below(12) {
+            0 if has_code && access & 0x0008 == 0 => JStr::from_str("<init>"),
+            1 if has_code && access & 0x0008 != 0 => JStr::from_str("<clinit>"),
+            _ => self.ident(),
+        };
+        let desc = if name.as_bytes() == b"<clinit>" {
+            JStr::from_str("()V")
+        } else if name.as_bytes() == b"<init>" {
+            let mut d = self.method_desc();
+            let close = d.0.iter().position(|b| *b == b')').unwrap();
+            d.0.truncate(close + 1);
+            d.0.push(b'V');
+            d
+        } else {
+            self.method_desc()
+        };
+        let nparams = crate::desc::parse_method_desc(desc.as_bytes()).map(|p| p.0.len()).unwrap_or(0);
+        let misc = self.has(feat::MISC_ATTRS);
+        let annos = self.has(feat::ANNOTATIONS) && self.major >= 49;
+        let mut m = Method { access, name, desc, ..Method::default() };
+        if has_code {
+            m.code = Some(code::gen_code(self, &m));
+        }
+        if misc && self.chance(25) {
+            m.exceptions = Some(self.list(3, |g| g.class_name()));
+        }
+        if misc && self.major >= 52 && self.chance(25) {
+            let n = if self.chance(80) { nparams } else { self.below(4) };
+            m.method_parameters = Some(
+                (0..n)
+                    .map(|_| MethodParameter {
+                        name: if self.chance(80) { Some(self.ident()) } else { None },
+                        access: [0u16, 0x0010, 0x1000, 0x8000, 0x8010][self.below(5)],
+                    })
+                    .collect(),
+            );
+        }
+        if annos && self.chance(10) {
+            m.annotation_default = Some(self.element_value(0));
+        }
+        if annos && self.chance(15) {
+            let n = if self.chance(80) { nparams } else { self.below(4) };
+            if self.chance(70) {
+                m.parameter_annotations.visible = Some((0..n).map(|_| self.list(2, |g| g.annotation(0))).collect());
+            }
+            if self.chance(50) {
+                m.parameter_annotations.invisible = Some((0..n).map(|_| self.list(2, |g| g.annotation(0))).collect());
+            }
+        }
+        m.annotations = self.annotations();
+        m.type_annotations = self.type_annotations(|g| match g.below(6) {
+            0 => Target::TypeParameter { target_type: 0x01, index: g.below(3) as u8 },
+            1 => Target::TypeParameterBound { target_type: 0x12, param: g.below(3) as u8, bound: g.below(3) as u8 },
+            2 => Target::Empty(0x14),
+            3 => Target::Empty(0x15),
+            4 => Target::FormalParameter(g.below(4) as u8),
+            _ => Target::Throws(g.below(3) as u16),
+        });
+        if self.has(feat::SIGNATURES) && self.major >= 49 && self.chance(15) {
+            m.signature = Some(JStr::from_str("<T:Ljava/lang/Object;:Ljava/lang/Comparable<-TT;>;>(TT;[I)TT;^Ljava/lang/Exception;"));
+        }
+        m.synthetic = self.chance(5);
+        m.deprecated = self.chance(5);
+        m.unknown = self.unknown_attrs();
+        m
+    }
+
+    fn module(&mut self) -> Module {
+        let ver = |g: &mut Self| g.opt(50, |g| JStr::from_str(&format!("{}.{}-ea+{}", g.below(20), g.below(10), g.below(99))));
+        Module {
+            name: self.module_name(),
+            flags: [0u16, 0x0020, 0x1000, 0x8000][self.below(4)],
+            version: ver(self),
+            requires: self.list(3, |g| Requires {
+                module: g.module_name(),
+                flags: [0u16, 0x0020, 0x0040, 0x1000, 0x8000][g.below(5)],
+                version: ver(g),
+            }),
+            exports: self.list(3, |g| Exports {
+                package: g.package_name(),
+                flags: [0u16, 0x1000, 0x8000][g.below(3)],
+                to: g.list(2, |g| g.module_name()),
+            }),
+            opens: self.list(2, |g| Exports {
+                package: g.package_name(),
+                flags: [0u16, 0x1000, 0x8000][g.below(3)],
+                to: g.list(2, |g| g.module_name()),
+            }),
+            uses: self.list(2, |g| g.class_name()),
+            provides: self.list(2, |g| Provides { service: g.class_name(), with: { let mut w = g.list(2, |g| g.class_name()); w.push(g.class_name()); w } }),
+        }
+    }
+}
+
+/// Generates a semantic class that is well-formed by [`crate::validate`]
+/// once encoded with any [`Layout`].
+pub fn gen_class(c: &mut dyn Choice, cfg: &GenCfg) -> Sem {
+    let lo = cfg.major_min.clamp(45, 67);
+    let hi = cfg.major_max.clamp(lo, 67);
+    let major = c.range(lo as i64, hi as i64) as u16;
+    let mut g = G { c, cfg, major, this_class: JStr::new() };
+    let minor = if major == 45 {
+        3
+    } else if major >= 56 && g.chance(5) {
+        65535
+    } else {
+        0
+    };
+    let mut s = Sem { major, minor, ..Sem::default() };
+    s.this_class = g.class_name();
+    g.this_class = s.this_class.clone();
+
+    // module-info
+    if g.has(feat::MODULE) && major >= 53 && g.chance(8) {
+        s.access = 0x8000;
+        s.this_class = JStr::from_str("module-info");
+        s.module = Some(g.module());
+        if g.chance(50) {
+            s.module_packages = Some(g.list(3, |g| g.package_name()));
+        }
+        if g.chance(40) {
+            s.module_main_class = Some(g.class_name());
+        }
+        s.source_file = g.opt(70, |_| JStr::from_str("module-info.java"));
+        s.annotations = g.annotations();
+        s.unknown = g.unknown_attrs();
+        return s;
+    }
+
+    let kind = g.below(10); // 0 interface, 1 annotation, 2 enum, else class
+    s.access = match kind {
+        0 => 0x0600,
+        1 => 0x2600,
+        2 => 0x4030,
+        _ => 0x0020 | if g.chance(20) { 0x0400 } else if g.chance(30) { 0x0010 } else { 0 },
+    };
+    if g.chance(70) {
+        s.access |= 1;
+    }
+    if g.chance(5) {
+        s.access |= 0x1000;
+    }
+    let in_interface = kind <= 1;
+    s.super_class = Some(if in_interface || g.chance(50) { JStr::from_str("java/lang/Object") } else { g.class_name() });
+    s.interfaces = g.list(3, |g| g.class_name());
+    let nf = g.below(cfg.max_members + 1);
+    for _ in 0..nf {
+        let f = g.field(in_interface);
+        s.fields.push(f);
+    }
+    let nm = g.below(cfg.max_members + 1);
+    for _ in 0..nm {
+        let m = g.method(in_interface);
+        s.methods.push(m);
+    }
+
+    let misc = g.has(feat::MISC_ATTRS);
+    if misc {
+        s.source_file = g.opt(60, |g| {
+            let mut n = g.ident();
+            n.0.extend_from_slice(b".java");
+            n
+        });
+        if major >= 49 {
+            s.source_debug_extension = g.opt(8, |g| g.list(40, |g| g.below(256) as u8));
+            s.enclosing_method = g.opt(10, |g| EnclosingMethod { class: g.class_name(), method: g.opt(60, |g| (g.ident(), g.method_desc())) });
+        }
+    }
+    if g.has(feat::INNER) && g.chance(25) {
+        s.inner_classes = Some(g.list(3, |g| InnerClass {
+            inner: g.class_name(),
+            outer: g.opt(60, |g| g.class_name()),
+            inner_name: g.opt(70, |g| g.ident()),
+            access: [0x0000u16, 0x0009, 0x000A, 0x0608, 0x4018, 0x1000, 0x2609][g.below(7)],
+        }));
+    }
+    if g.has(feat::SIGNATURES) && major >= 49 && g.chance(20) {
+        s.signature = Some(JStr::from_str("<T:Ljava/lang/Object;U::Ljava/lang/Runnable;>Ljava/lang/Object;Ljava/lang/Comparable<TT;>;"));
+    }
+    s.synthetic = g.chance(4);
+    s.deprecated = g.chance(5);
+    s.annotations = g.annotations();
+    s.type_annotations = g.type_annotations(|g| match g.below(3) {
+        0 => Target::TypeParameter { target_type: 0x00, index: g.below(3) as u8 },
+        1 => Target::Supertype(if g.chance(40) { 65535 } else { g.below(3) as u16 }),
+        _ => Target::TypeParameterBound { target_type: 0x11, param: g.below(3) as u8, bound: g.below(3) as u8 },
+    });
+    if g.has(feat::NEST) && major >= 55 {
+        if g.chance(12) {
+            s.nest_host = Some(g.class_name());
+        } else if g.chance(12) {
+            s.nest_members = Some(g.list(3, |g| g.class_name()));
+        }
+    }
+    if g.has(feat::PERMITTED) && major >= 61 && s.access & 0x0010 == 0 && g.chance(12) {
+        s.permitted_subclasses = Some(g.list(3, |g| g.class_name()));
+    }
+    if g.has(feat::RECORD) && major >= 60 && kind >= 3 && g.chance(15) {
+        s.access |= 0x0010;
+        s.access &= !0x0400;
+        s.permitted_subclasses = None;
+        s.super_class = Some(JStr::from_str("java/lang/Record"));
+        s.record = Some(g.list(3, |g| {
+            let sig = g.has(feat::SIGNATURES) && g.chance(25);
+            RecordComponent {
+                name: g.ident(),
+                desc: g.field_desc(),
+                signature: if sig { Some(g.field_signature()) } else { None },
+                annotations: g.annotations(),
+                type_annotations: g.type_annotations(|_| Target::Empty(0x13)),
+                unknown: g.unknown_attrs(),
+            }
+        }));
+    }
+    s.unknown = g.unknown_attrs();
+    s
+}
+
+/// Draws a layout: every knob random.
+pub fn gen_layout(c: &mut dyn Choice) -> Layout {
+    let pct = |c: &mut dyn Choice| -> u32 { [0u32, 0, 10, 50, 100][c.below(5) as usize] };
+    Layout {
+        seed: (c.below(1 << 32) << 32) | c.below(1 << 32),
+        cp_order: [CpOrder::FirstUse, CpOrder::Reversed, CpOrder::Shuffled][c.below(3) as usize],
+        cp_duplicates: if c.chance(40) { c.below(12) as u32 } else { 0 },
+        cp_unused: if c.chance(40) { c.below(8) as u32 } else { 0 },
+        bsm_duplicates: if c.chance(30) { c.below(4) as u32 } else { 0 },
+        shuffle_attrs: c.chance(50),
+        p_ldc_w: pct(c),
+        p_local_explicit: pct(c),
+        p_local_wide: pct(c),
+        p_iinc_wide: pct(c),
+        p_goto_w: pct(c),
+        frames: [FrameEnc::Compact, FrameEnc::Full, FrameEnc::Mixed][c.below(3) as usize],
+        p_frame_extended: pct(c),
+        split_line_numbers: 1 + c.below(3) as u32,
+        split_local_vars: 1 + c.below(3) as u32,
+        lvt_before_lnt: c.chance(50),
+        emit_map: true,
+    }
+}
